@@ -93,9 +93,9 @@ def gen_big(rng):
     nregs = 1
     for _ in range(rng.randrange(1, 4)):
         conds = []
-        for kw in rng.sample(cols, 2):
+        for kw in rng.sample(cols, rng.choice([1, 2, 2])):      # one keyword: the order of a multi-valued 'in' shows (values of one and two digits)
             op = rng.choice(["=", "in", "=", "in", "<", ">"])
-            arg = [rng.randrange(0, 12) for _ in range(2)] if op == "in" else rng.randrange(0, 12)
+            arg = [rng.randrange(0, 12) for _ in range(rng.choice([2, 2, 3, 4]))] if op == "in" else rng.randrange(0, 12)
             conds.append((kw, op, arg, "dict"))
         r = rng.randrange(nregs)
         ops.append(("where", r, conds)); nregs += 1
